@@ -33,7 +33,10 @@ PATHY_KEYS = ["path", "path.length", "\\path", "PATH", "Path.first", "xpath", "a
 
 
 def pathy_literal(r):
-    d = {r.choice(PATHY_KEYS): G.json_value(r, 1)}
+    d = {}
+    if r.pct() < 30:
+        d[r.choice(["b", "a", "z z"])] = G.json_value(r, 0)  # a plain key FIRST, the path-looking key after it
+    d[r.choice(PATHY_KEYS)] = G.json_value(r, 1)
     if r.coin(40):
         d[r.choice(["b", "path", "\\path.x", "PATH"])] = G.json_value(r, 0)
     return d
@@ -41,8 +44,12 @@ def pathy_literal(r):
 
 def special_arg(r):
     c = r.pct()
-    if c < 55:
+    if c < 50:
         return c09.small_path(r, jsonable=True)
+    if c < 62:
+        # a path-looking mapping two or more levels down: neither escaped nor un-escaped there
+        inner = pathy_literal(r)
+        return r.choice([{"src": {"file": inner}}, [[inner]], {"a": [inner, 1]}, [{"k": inner}]])
     return pathy_literal(r)
 
 
